@@ -101,7 +101,7 @@ class ReservedCfdpMessage(AbstractTlvBase):
     """
 
     def __init__(self, msg_type: int, value: bytes):
-        assert msg_type < pow(2, 8) - 1
+        assert msg_type <= pow(2, 8) - 1
         full_value = bytearray("cfdp".encode())
         full_value.append(msg_type)
         full_value.extend(value)
